@@ -383,14 +383,24 @@ pub fn run(ctx: &Ctx) -> i32 {
     // composite-key entry pass: a mapping entry whose key is any value of up to 2 nodes and whose value is any value
     // of up to 3 nodes, at the root, as a sequence item and as a mapping value, under the layout-relevant options
     {
-        let keys: Vec<&Dyn> = by.iter().take(3).flatten().collect();
-        let vals: Vec<&Dyn> = by.iter().take(4).flatten().collect();
-        let mut kopts = vec![SerOpts::default(), SerOpts { compact: true, ..SerOpts::default() }, SerOpts { indent: 4, ..SerOpts::default() }];
+        // plus strings that need a block scalar with an indentation indicator / keep chomping, bare and inside each
+        // one-child container
+        let mut blocky: Vec<Dyn> = Vec::new();
+        for t in [" l1\nl2", "l1\nl2\n\n", "\n l1", "l1 l2 l3"] {
+            blocky.push(Dyn::s(t));
+            for sh in 0..ARITY1.len() {
+                blocky.push(build1(sh, Dyn::s(t)));
+            }
+        }
+        let keys: Vec<&Dyn> = by.iter().take(3).flatten().chain(blocky.iter()).collect();
+        let vals: Vec<&Dyn> = by.iter().take(4).flatten().chain(blocky.iter()).collect();
+        let mut kopts = vec![SerOpts::default(), SerOpts { compact: true, ..SerOpts::default() }, SerOpts { indent: 4, ..SerOpts::default() }, SerOpts { wrap: 1, ..SerOpts::default() }];
         if ctx.tier == Tier::Thorough {
             kopts.extend([SerOpts { indent: 3, ..SerOpts::default() }, SerOpts { indent: 1, ..SerOpts::default() }, SerOpts { indent: 8, compact: true, ..SerOpts::default() }, SerOpts { no_empty_braces: true, ..SerOpts::default() }, SerOpts::from_bits(1)]);
         }
         let (nk, nv, no) = (keys.len() as u64, vals.len() as u64, kopts.len() as u64);
         const CONTEXTS: u64 = 4;
+        let quick = ctx.tier == Tier::Quick;
         let total = CONTEXTS * nk * nv * no;
         let a = run_indexed(&p, total, |i| {
             let o = kopts[(i % no) as usize];
@@ -398,6 +408,9 @@ pub fn run(ctx: &Ctx) -> i32 {
             let y = vals[(r % nv) as usize];
             let r = r / nv;
             let x = keys[(r % nk) as usize];
+            if quick && r / nk >= 2 && y.count() > 2 {
+                return None; // quick: inside a mapping value / after a first entry, values of up to 2 nodes
+            }
             let entry = Dyn::Map(vec![(x.clone(), y.clone())]);
             let val = match r / nk {
                 0 => entry,
